@@ -191,6 +191,9 @@ def server_check(pid, tier):
 
 def replay(pid, path):
     payload = json.load(open(path))
+    if payload.get("harness_died"):
+        print(json.dumps(payload, indent=1)[:4000])
+        return CHECKS[pid](pid, payload.get("tier", "quick"))
     if payload.get("publife_schedule"):
         from common import BIN, sh, tlc
         build_harness()
